@@ -14,8 +14,8 @@ for d in sorted(glob.glob('/verif/seeded/C*-*')):
     sid=os.path.basename(d)
     try: meta=json.load(open(d+'/meta.json'))
     except Exception: meta={}
-    ev=open(d+'/eval.txt').read() if os.path.exists(d+'/eval.txt') else ''
-    extra=open(d+'/reeval.txt').read() if os.path.exists(d+'/reeval.txt') else ''
+    ev=open(d+'/eval.txt',errors='replace').read() if os.path.exists(d+'/eval.txt') else ''
+    extra=open(d+'/reeval.txt',errors='replace').read() if os.path.exists(d+'/reeval.txt') else ''
     demo0=re.search(r'demo on HEAD: exit=(\d+)',ev); demo1=re.search(r'demo with patch: exit=(\d+)',ev)
     suite=re.search(r'failing tests other than the flaky one: \[(.*)\]',ev)
     checks=re.findall(r'check (C\d+) exit=(\d+)',ev)
